@@ -70,6 +70,7 @@ inductive Res where
   | fmt (fn : String) (args : List Int)   -- a formatting call on x, with its literal arguments
   | raw (go : String)          -- statements outside the structured language, as canonical Go text
   | fail (e : CErr)
+  | fall                       -- the clause does not return: control goes on to `after`
   | unknown (go : String)      -- the translator did not recognise the statement(s)
   deriving Repr, Inhabited
 
@@ -240,6 +241,7 @@ def Res.eval (env : Env) (s : Src) : Res → Option (R Val)
     | .str i => libCall fn args i
     | _ => none
   | .fail e => some (.error e)
+  | .fall => some (.ok (.str []))
   | .unknown _ => none
 
 def runGuards (env : Env) (s : Src) : List Guard → Res → Option (R Val)
